@@ -65,6 +65,8 @@ class C11R(SchedProp):
         'CylcModel.C11R.restart_keeps_instances',
         'CylcModel.C11R.restart_restores',
         'CylcModel.C11R.restart_restores_when_row_agrees',
+        'CylcModel.C11R.restart_restores_or_drops',
+        'CylcModel.C11R.restart_invents_nothing',
         'CylcModel.C11R.restart_keeps_history',
         'CylcModel.C11R.restart_flowwait_counterexample',
         'CylcModel.C11R.restart_outputs_counterexample',
@@ -88,7 +90,10 @@ class C11R(SchedProp):
         'satisfaction, status (preparing -> waiting), held state (a task that is held without having been is beyond the '
         'hold point: finding hold-point-reapplied); flow wait, submit number (preparing: minus one) and completed outputs '
         '(running / failed / succeeded only: finding outputs-not-restored) of y are those of the committed row of x\'s flows; '
-        'restart_restores_when_row_agrees - hence restored whenever that row agrees with x. restart_keeps_history - the '
+        'restart_restores_when_row_agrees - hence restored whenever that row agrees with x. WITHOUT any assumption on the live '
+        'code: restart_restores_or_drops - every pooled proxy of every reachable state is either restored exactly like that '
+        'from the committed row of its flows, or (no such row) dropped; restart_invents_nothing - from ANY state the '
+        'restarted pool\'s instances are a sub-list of those pooled before the stop. restart_keeps_history - the '
         'restart leaves the committed task_states / task_outputs rows (the history spawn_task consults: no re-run of '
         'completed tasks, C08S no_rerun_in_flow) untouched. FULL STATEMENT FALSE on the current code, with kernel-checked '
         'witnesses: restart_flowwait_counterexample (finding flow-wait-resurrected: a merge ends the flow wait in memory '
